@@ -118,6 +118,10 @@ def verify(name, prop, patch, demo, agent_meta=None, extra_checks=()):
 def run_filed(name, tier='quick', checks=None):
     d = os.path.join(ROOT, 'seeded', name)
     meta = json.load(open(os.path.join(d, 'meta.json')))
+    if meta.get('obsolete_since'):
+        # a later repair of wpull made this change unobservable (see obsolete_note)
+        return dict(name=name, property=meta['property'], obsolete=meta['obsolete_since'],
+                    results=[], detected=None)
     wt = make_worktree(name)
     try:
         rc, out = sh(['git', '-C', wt, 'apply', '--whitespace=nowarn',
@@ -157,7 +161,8 @@ def main(argv):
             if os.path.exists(os.path.join(ROOT, 'seeded', name, 'meta.json')):
                 r = run_filed(name, tier)
                 out.append(r)
-                print('%-28s %s %s' % (name, 'DETECTED' if r.get('detected') else 'MISSED  ',
+                print('%-28s %s %s' % (name, 'OBSOLETE' if r.get('obsolete') else
+                                       'DETECTED' if r.get('detected') else 'MISSED  ',
                                        [(x['check'], x['violations'], x['wall_s'])
                                         for x in r.get('results', [])] or r.get('error')))
         json.dump(out, open(os.path.join(ROOT, 'seeded', 'RESULTS-%s.json' % tier), 'w'),
